@@ -47,6 +47,7 @@ def run(rep, prog, tier):
     rep.assume('base64.b64encode/b64decode are RFC 4648 (stdlib)')
 
     A = prog.cls('pgpy.types', 'Armorable')
+    classifier(rep, prog, A)
     crc(rep, prog, A)
     sep = writer(rep, prog, A)
     labels(rep, prog)
@@ -193,6 +194,113 @@ def is_export(node, selfn):
     return T.show(node) in ('%s.__bytearray__()' % selfn, selfn, 'bytes(%s)' % selfn, 'bytearray(%s)' % selfn)
 
 
+# ------------------------------------------------------------------------------------------------ text / binary classifier
+ARMOR_TEXT = frozenset(range(0x20, 0x7F)) | frozenset([9, 10, 13])      # what armored text is made of: printable ASCII, TAB, CR, LF
+
+
+def accepted_alphabet(node, consts, owners):
+    """Set of code points c such that the classifier term accepts a text made of c's only, for a term of one of the forms
+       bool(re.match(<^[set]*$>, x, ..)) / re.fullmatch / `.. is not None`        (the set of the pattern)
+       len(x.translate(None, TABLE)) == 0 / not x.translate(None, TABLE)            (the octets of the delete table)
+       x.isascii()                                                                  (0..127)
+       all(v in COLLECTION for v in x)
+    else None."""
+    node = T.subst_class_constants(node, consts, owners)
+    for pat in ('bool(_M)', '_M is not None', '_M != None'):
+        m = T.match(node, pat)
+        if m is not None:
+            node = m['_M']
+            break
+    m = T.match_any(node, ['re.match(_P, _X, flags=_F)', 're.match(_P, _X)', 're.fullmatch(_P, _X, flags=_F)', 're.fullmatch(_P, _X)',
+                           're.search(_P, _X, flags=_F)', 're.search(_P, _X)'])
+    if m is not None:
+        try:
+            pat = T.const_eval(m['_P'])
+        except T.NotConstant:
+            return None
+        if not isinstance(pat, (str, bytes)):
+            return None
+        try:
+            tree, p = regexast.norm_pattern(pat, flags_of(m.get('_F')))
+        except (regexast.Unsupported, re.error):
+            return None
+        full = T.show(node.func) == 're.fullmatch'
+        core = [nd for nd in tree if nd[0] != 'at']
+        ats = [nd[1] for nd in tree if nd[0] == 'at']
+        anchored_end = full or (tree and tree[-1][0] == 'at' and tree[-1][1] in ('AT_END', 'AT_END_STRING'))
+        anchored_start = full or T.show(node.func) == 're.match' or (tree and tree[0][0] == 'at' and tree[0][1] in ('AT_BEGINNING', 'AT_BEGINNING_STRING'))
+        if len(core) == 1 and core[0][0] == 'rep' and core[0][2] is None and len(core[0][4]) == 1 and core[0][4][0][0] == 'set' and \
+                anchored_end and anchored_start and len(ats) <= 2:
+            return frozenset(core[0][4][0][1])
+        return None
+    for pat in ('len(_X.translate(None, _T)) == 0', 'not _X.translate(None, _T)', 'not len(_X.translate(None, _T))', '_X.translate(None, _T) == C(\'\')',
+                '0 == len(_X.translate(None, _T))'):
+        m = T.match(node, pat)
+        if m is not None:
+            try:
+                tab = T.const_eval(m['_T'])
+            except T.NotConstant:
+                return None
+            return frozenset(tab) if isinstance(tab, (bytes, tuple)) and all(type(c) is int for c in tab) else None
+    if T.match(node, '_X.isascii()') is not None:
+        return frozenset(range(128))
+    c = T.each(T.match(node, 'all(_G)')['_G']) if T.match(node, 'all(_G)') is not None else None
+    if c is not None and len(c[3]) == 1 and isinstance(c[0], ast.Name) and not c[2]:
+        m = T.match(c[3][0], '_V in _S')
+        if m is not None and T.same(m['_V'], c[0]):
+            try:
+                coll = T.const_eval(m['_S'])
+            except T.NotConstant:
+                return None
+            if isinstance(coll, (bytes, tuple, str)):
+                return frozenset(ord(x) if isinstance(x, str) else x for x in coll)
+    return None
+
+
+def classifier(rep, prog, A):
+    """Armorable.is_ascii decides whether input is armored text or binary packet data.  It must give the same answer for the same
+    characters whether they arrive as str, bytes or bytearray, and must call text everything armored text can be made of."""
+    f = A.methods.get('is_ascii')
+    if f is None:
+        raise AnalysisError('Armorable.is_ascii vanished')
+    rep.saw(fn=f)
+    p = _own_params(f)[0]
+    consts = T.class_constants(A)
+    alph = {}
+    for kind in ('str', 'bytes', 'bytearray'):
+        sets = set()
+        for s in Interp(prog, Scenario(args={p: Sym(p, types={kind}, nonnull=True)}, inline=noinline)).run(f):
+            if s.raised is not None:
+                continue
+            node = T.parse_term(render(s.ret))
+            a = accepted_alphabet(node, consts, (A.name, 'cls')) if node is not None else None
+            if a is None:
+                raise AnalysisError('Armorable.is_ascii (%s input): classifier has an unmodelled shape: %s' % (kind, render(s.ret)[:160]))
+            sets.add(a)
+        if len(sets) != 1:
+            raise AnalysisError('Armorable.is_ascii (%s input): %d different classifiers on its paths' % (kind, len(sets)))
+        alph[kind] = sets.pop()
+
+    def show(cs):
+        return ' '.join('%02x' % c for c in sorted(cs)) or 'nothing'
+    # ... and every character the armor expression names explicitly (its literal characters and small classes; `.` stands for the text alphabet above)
+    tree, _groups = armor_tree(A)
+    grammar = set(ARMOR_TEXT)
+    for nd in regexast.iter_nodes(tree):
+        if nd[0] == 'set' and len(nd[1]) <= 100:
+            grammar |= set(c for c in nd[1] if c < 256)
+    for kind in ('str', 'bytes', 'bytearray'):
+        missing = frozenset(grammar) - alph[kind]
+        rep.check(not missing, 'C10.5', 'Armorable.is_ascii', '%s input: text alphabet misses %s' % (kind, show(missing)),
+                  'every character armored text can contain (printable ASCII, TAB, CR, LF) must be classified as text, or the armor is parsed as binary packet data',
+                  where=f.where, expected='20..7e 09 0a 0d', found='missing: %s' % show(missing), scenario=kind)
+    for kind in ('bytes', 'bytearray'):
+        diff = (alph['str'] ^ alph[kind]) & frozenset(range(256))
+        rep.check(not diff, 'C10.5', 'Armorable.is_ascii', '%s vs str alphabet differs on %s' % (kind, show(diff)),
+                  'the same armored text must be classified the same way whether it is given as str, bytes or bytearray', where=f.where,
+                  expected='same alphabet', found='differs on: %s' % show(diff), scenario=kind)
+
+
 # ------------------------------------------------------------------------------------------------ C10.1
 def ref_crc24(octets):
     """RFC 4880 6.1, transcribed."""
@@ -317,8 +425,12 @@ def writer(rep, prog, A):
     paths = [s for s in Interp(prog, Scenario(inline=noinline)).run(f) if s.raised is None]
     if not paths:
         raise AnalysisError('Armorable.__str__: no returning path')
+    consts = T.class_constants(A)
     for s in paths:
-        ps = T.pieces(render(s.ret))
+        node = T.parse_term(render(s.ret))
+        if node is not None:
+            node = T.subst_class_constants(node, consts, owners=(selfn, A.name, 'cls'))
+        ps = T.pieces(node if node is not None else render(s.ret))
         if len(ps) == 1 and ps[0][0] == 'V':
             raise AnalysisError('Armorable.__str__: the returned text is not built from literals the checker can read: %s' % render(s.ret)[:120])
         text, table = T.layout(ps)
@@ -344,16 +456,35 @@ def writer(rep, prog, A):
                     isinstance(sm['_W'], ast.Constant) and isinstance(cm.get('_S', ast.Constant(value=1)), ast.Constant):
                 P, W, Q, S = sm['_P'], sm['_W'].value, cm['_Q'], cm.get('_S', ast.Constant(value=1)).value
         if P is None and len(body) == 1 and body[0][0] == 'J' and body[0][1] == '\n' and len(body[0][4]) == 1 and body[0][4][0][0] == 'V':
-            # the export cut into slices of 3k octets, each encoded on its own: base64 works on 3-octet quanta, so this is the text cut every 4k characters
+            # the export encoded piece by piece: base64(a + b) == base64(a) + base64(b) exactly when len(a) is a multiple of 3 (otherwise the
+            # first piece ends in '=' padding in the middle of the body).  Either every piece is one line, or each piece's text is cut into lines.
             _, _, var, coll, inner = body[0]
-            E = b64text_of(inner[0][1])
+            piece, cols = inner[0][1], None
+            e2 = T.each(piece)
+            if e2 is not None and len(e2[3]) == 1 and not e2[2] and isinstance(e2[0], ast.Name):
+                lm = T.match(e2[3][0], 'SLICE(_B, _J, _J + _W)')
+                rm2 = T.match(e2[1], 'range(0, len(_B2), _S2)')
+                if lm is not None and rm2 is not None and T.same(lm['_J'], e2[0]) and T.same(lm['_B'], rm2['_B2']) and \
+                        isinstance(lm['_W'], ast.Constant) and isinstance(rm2['_S2'], ast.Constant):
+                    piece, cols = lm['_B'], (lm['_W'].value, rm2['_S2'].value)
+            E = b64text_of(piece)
             sm = T.match(E, 'SLICE(_P, _I, _I + _W)') if E is not None else None
             cm = T.match(coll, 'range(0, len(_Q), _S)')
             if sm is not None and cm is not None and isinstance(var, ast.Name) and T.same(sm['_I'], var) and isinstance(sm['_W'], ast.Constant) and \
-                    isinstance(cm['_S'], ast.Constant) and isinstance(sm['_W'].value, int) and sm['_W'].value % 3 == 0 and is_export(sm['_P'], selfn) and \
-                    T.same(sm['_P'], cm['_Q']):
+                    isinstance(cm['_S'], ast.Constant) and type(sm['_W'].value) is int and type(cm['_S'].value) is int and sm['_W'].value > 0:
+                K, KS = sm['_W'].value, cm['_S'].value
+                okk = rep.check(K % 3 == 0 and K == KS and is_export(sm['_P'], selfn) and T.same(sm['_P'], cm['_Q']), 'C10.2', 'Armorable.__str__',
+                                'payload encoded in pieces of %d octets (step %d) of %s' % (K, KS, T.show(sm['_P'])),
+                                'a payload encoded piece by piece is the base64 of the whole export only if every piece but the last has a length divisible '
+                                'by 3 (no "=" padding inside the body) and the pieces cover the export without gap or overlap', where=f.where,
+                                expected='piece size divisible by 3, step = size', found='size %d, step %d' % (K, KS))
+                if not okk:
+                    continue
                 b64 = T.parse_term("base64.b64encode(%s).decode('latin-1')" % T.show(sm['_P']).replace('$', '_B'))
-                P, Q, W, S = b64, b64, sm['_W'].value // 3 * 4, (cm['_S'].value // 3 * 4 if cm['_S'].value % 3 == 0 else -1)
+                if cols is None:
+                    P, Q, W, S = b64, b64, K // 3 * 4, KS // 3 * 4
+                else:
+                    P, Q, W, S = b64, b64, cols[0], cols[1]
         if P is None and len(body) == 1 and body[0][0] == 'V':
             rm = T.match(body[0][1], "'\\n'.join(re.findall(_R, _P))")
             if rm is not None and isinstance(rm['_R'], ast.Constant) and isinstance(rm['_R'].value, str):
